@@ -111,6 +111,7 @@ package log
 //@   modifies s.synced, contents(s.file.Data), s.file.gdur
 //@   ensures [C14+C10.sync-header-last] result0 == nil ==> hdrDur(s) == s.n && hdrMem(s) == s.n && s.synced == s.n
 //@   ensures [C14+C10.sync-keeps] SegInv(s) && CrashOK0(s) && SyncedOK(s) && (result0 == nil || old(CrashOK(s)) ==> CrashOK(s)) && s.n == old(s.n) && s.size == old(s.size)
+//@   ensures [C14.sync-keeps-good] old(SegGood(s)) ==> SegGood(s)
 //@   ensures [C13.sync-frame] forall(p, p < hdrPos(s) || p >= hdrPos(s) + 8 ==> raw(s.file.Data, p) == old(raw(s.file.Data, p)))
 //@   crash_inv [C14.sync-crash-ok] CrashOK0(s) && (old(CrashOK(s)) ==> hdrDur(s) <= s.n)
 
@@ -130,12 +131,22 @@ package log
 
 //@ ghost field Log.gin map[uint64]bool
 //@ pure InList(l *Log, x *segment) bool = l.gin[ref(x)]
-//@ pure SegOK(l *Log, x *segment) bool = SegInv(x) && CrashOK(x) && (x.prev != nil ==> l.gin[ref(x.prev)] && x.prev.next == x && x.prev.prevIndex + x.prev.n == x.prevIndex && x.prev.n > 0) && (x.next != nil ==> l.gin[ref(x.next)] && x.next.prev == x) && (x.prev == nil ==> x == l.first) && (x.next == nil ==> x == l.last) && x.prevIndex + x.n < 18446744073709551615
+// SegGood is opaque under quantifiers (LogShape): the invariant of one segment is a function of that
+// segment's fields, its mapped bytes and its durable image only, so writing to one segment cannot
+// disturb another (SegSep). Mentioned for a concrete segment, its definition is unfolded.
+//@ opaque SegGood(s *segment) bool reads s.n, s.size, s.synced, s.file, s.file.Data, bytesof(s.file.Data), s.file.gdur = s.file != nil && SegInv(s) && CrashOK(s)
+//@ pure SegOK(l *Log, x *segment) bool = SegGood(x) && (x.prev != nil ==> l.gin[ref(x.prev)] && x.prev.next == x && x.prev.prevIndex + x.prev.n == x.prevIndex && x.prev.n > 0) && (x.next != nil ==> l.gin[ref(x.next)] && x.next.prev == x && x.synced == x.n) && (x.prev == nil ==> x == l.first) && (x.next == nil ==> x == l.last) && x.prevIndex + x.n < 18446744073709551615
 //@ pure SegSep(x *segment, y *segment) bool = x.file != y.file && arrof(x.file.Data) != arrof(y.file.Data)
-//@ pure LogShape(l *Log) bool = l.first != nil && l.last != nil && InList(l, l.first) && InList(l, l.last) && l.first.prev == nil && l.last.next == nil && forall(x, l.gin[x] ==> x != 0 && SegOK(l, x)) && forall(x, y, l.gin[x] && l.gin[y] && x != y ==> SegSep(x, y))
+//@ pure LogShape(l *Log) bool = l.first != nil && l.last != nil && InList(l, l.first) && InList(l, l.last) && l.first.prev == nil && l.last.next == nil && SegGood(l.first) && SegGood(l.last) && forall(x, l.gin[x] ==> x != 0 && SegOK(l, x)) && forall(x, y, l.gin[x] && l.gin[y] && x != y ==> SegSep(x, y))
 //@ pure LogPrev(l *Log) uint64 = ite(l.index == nil, l.first.prevIndex, l.index[0])
 //@ pure LogLast(l *Log) uint64 = ite(l.index == nil, l.last.prevIndex + l.last.n, l.index[1])
 //@ pure SegHolds(x *segment, i uint64, b []byte) bool = x.prevIndex < i && i <= x.prevIndex + x.n && arrof(b) == arrof(x.file.Data) && base(b) == base(x.file.Data) + soff(x, i - x.prevIndex) && len(b) == soff(x, i - x.prevIndex + 1) - soff(x, i - x.prevIndex)
+
+//@ pure SN(x *segment) int = x.n
+//@ pure SP(x *segment) uint64 = x.prevIndex
+//@ pure SSy(x *segment) int = x.synced
+// the list position and the content bounds of a segment are as at function entry
+//@ pure SegKept(x *segment) bool = x.n == old(x.n) && x.prevIndex == old(x.prevIndex) && x.size == old(x.size) && x.prev == old(x.prev) && x.next == old(x.next) && x.file == old(x.file)
 
 //@ func (*Log).PrevIndex
 //@   requires l.index == nil ==> l.first != nil
@@ -151,8 +162,8 @@ package log
 //@   requires LogShape(l) && l.index == nil
 //@   requires [C13.segment-range] i <= LogLast(l)
 //@   ensures [C13.segment] (i <= LogPrev(l)) == (result0 == nil)
-//@   ensures [C13.segment-holds] result0 != nil ==> InList(l, result0) && result0.prevIndex < i && i <= result0.prevIndex + result0.n
-//@   loop 1 invariant s != nil && InList(l, s) && i <= s.prevIndex + s.n
+//@   ensures [C13.segment-holds] result0 != nil ==> InList(l, result0) && SegGood(result0) && result0.prevIndex < i && i <= result0.prevIndex + result0.n
+//@   loop 1 invariant s != nil && InList(l, s) && SegGood(s) && i <= s.prevIndex + s.n
 
 //@ func (*Log).Contains
 //@   requires LogShape(l) && l.index == nil
@@ -178,5 +189,9 @@ package log
 //@ func (*Log).CommitN
 //@   requires LogShape(l)
 //@   modifies segment.synced, elems(uint8), mmap.File.gdur
+//@   ensures [C14.commitn-keeps-shape] LogShape(l) && l.first == old(l.first) && l.last == old(l.last)
 //@   ensures [C14+C10.commitn-last] result0 == nil && l.last.prevIndex < n ==> hdrDur(l.last) == l.last.n && hdrMem(l.last) == l.last.n && !(l.last.synced < l.last.n)
-//@   loop 1 unroll 2
+//@   ensures [C14+C10.commitn-all] result0 == nil ==> forall(x, l.gin[x] && SP(x) < n ==> SSy(x) == SN(x))
+//@   ensures [C13.commitn-frame] forall(x, l.gin[x] ==> SegKept(x))
+//@   loop 1 invariant LogShape(l) && (s != nil ==> InList(l, s) && SegGood(s)) && (s != l.last && l.last.prevIndex < n ==> l.last.synced == l.last.n)
+//@   loop 1 invariant forall(x, l.gin[x] ==> SegKept(x))
